@@ -490,6 +490,8 @@ op_reset_tmr(int64_t a)
 
 	if (r == NULL)
 		return;
+	if (budget-- <= 0)
+		return;		/* resets count against the budget too: a reset cascade must end */
 	t0 = now_us();
 	LIB_ENTER();
 	rc = events_timer_reset(r->cookie);
@@ -733,6 +735,12 @@ __wrap_poll(struct pollfd * fds, nfds_t n, int T)
 
 	simalloc_depth = 0;
 	R->cnt[N_POLL]++;
+	if (R->cnt[N_POLL] > 3000000) {
+		char o[32];
+
+		snprintf(o, sizeof(o), "%s.spin", sim_prop);
+		sim_viol(o, "poll-cap", "the event loop called poll more than 3000000 times in one run (bounded workload: busy loop)");
+	}
 	if (n > 16)
 		R->cnt[N_POLLGROW]++;
 	TR(0xF0, T < 0 ? 99999 : T, n, "poll(n=%d, timeout=%d) at +%lu us", (int)n, T, (unsigned long)(now_us() - T0_NS / 1000));
